@@ -196,6 +196,43 @@ def write_replay(prop, res, v, idx):
     return os.path.relpath(path, ROOT)
 
 
+def _known(open_findings, res, ob_name):
+    """the open finding that names this call site: contract, configuration(s) and the exact
+    obligation(s); any other failing obligation is still a violation"""
+    for k in open_findings:
+        obs = k.get("obligations") or ([k["obligation"]] if k.get("obligation") else [])
+        cfgs = k.get("cfg")
+        cfg_ok = cfgs in (None, "*") or res["cfg"] == cfgs or (isinstance(cfgs, list) and res["cfg"] in cfgs)
+        name = run.base_name(ob_name)
+        name = name.split(" (")[0] if res["tier"] == "E" else name
+        if k.get("contract") == res["contract"] and cfg_ok and name in obs:
+            return k
+    return None
+
+
+def check_lemmas():
+    """thorough tier: re-check the Lean statements of the Sigma rules (lemmas/SigmaRules.lean)"""
+    import shutil
+    import subprocess
+
+    path = os.path.join(ROOT, "lemmas", "SigmaRules.lean")
+    if not os.path.exists(path) or shutil.which("lean") is None:
+        return dict(file="lemmas/SigmaRules.lean", status="not-run (lean or file missing)", secs=0.0)
+    t0 = time.time()
+    text = open(path).read()
+    body = text.split("-/", 1)[-1]
+    if "sorry" in body or "\naxiom " in body or "admit" in body:
+        return dict(file="lemmas/SigmaRules.lean", status="REJECTED: sorry / axiom / admit in file", secs=0.0)
+    try:
+        pr = subprocess.run(["lean", path], capture_output=True, text=True, timeout=1500, cwd=os.path.join(ROOT, "lemmas"))
+        ok = pr.returncode == 0 and "error" not in (pr.stdout + pr.stderr)
+        n = text.count("\ntheorem ")
+        return dict(file="lemmas/SigmaRules.lean", status="accepted by lean (%d theorems)" % n if ok else "FAILED: " + (pr.stdout + pr.stderr)[:400],
+                    secs=round(time.time() - t0, 1))
+    except Exception as e:  # timeout etc.
+        return dict(file="lemmas/SigmaRules.lean", status="not-run (%s)" % type(e).__name__, secs=round(time.time() - t0, 1))
+
+
 def check_property(prop, tier, seed, jobs):
     t0 = time.time()
     tasks = tasks_for(prop)
@@ -220,6 +257,7 @@ def check_property(prop, tier, seed, jobs):
     n_b = n_bdis = 0
     solver_s = 0.0
     violations, undecided, crashes, known_hits = [], [], [], []
+    known_refuted = []
     functions, samples = [], []
     oor = []
     for res in results:
@@ -232,6 +270,11 @@ def check_property(prop, tier, seed, jobs):
             oor.append("%s [%s]: %s" % (res["contract"], res["cfg"], res["oor"]))
         for ob in res["obligations"]:
             solver_s += ob["secs"]
+            if ob["status"] != "proved" and _known(open_findings, res, ob["name"]) is not None:
+                # the obligation a recorded (unrepaired) finding refutes: reported apart, neither
+                # claimed as discharged nor counted among the obligations the claim rests on
+                known_refuted.append("%s|%s|%s" % (res["contract"], res["cfg"], ob["name"]))
+                continue
             if ob["tier"] == "P":
                 n_ob += 1
                 n_dis += ob["status"] == "proved"
@@ -246,16 +289,7 @@ def check_property(prop, tier, seed, jobs):
             undecided.append((res, u))
         for v in res["violations"]:
             oid = "%s|%s|%s" % (res["contract"], res["cfg"], v["obligation"])
-            hit = None
-            for k in open_findings:
-                # a finding names the call site: contract, configuration(s) and the exact
-                # obligation(s); any other failing obligation is still a violation
-                obs = k.get("obligations") or ([k["obligation"]] if k.get("obligation") else [])
-                cfgs = k.get("cfg")
-                cfg_ok = cfgs in (None, "*") or res["cfg"] == cfgs or (isinstance(cfgs, list) and res["cfg"] in cfgs)
-                if k.get("contract") == res["contract"] and cfg_ok and run.base_name(v["obligation"]) in obs:
-                    hit = k
-                    break
+            hit = _known(open_findings, res, v["obligation"])
             if hit is not None:
                 known_hits.append((hit, res, v))
                 continue
@@ -292,6 +326,10 @@ def check_property(prop, tier, seed, jobs):
         for res, u in undecided[:20]:
             print("UNDECIDED %s [%s] %s: %s" % (res["contract"], res["cfg"], u["obligation"], u.get("reason")))
         rc = 2
+    lemmas = check_lemmas() if tier == "thorough" else dict(file="lemmas/SigmaRules.lean", status="checked in the thorough tier only")
+    if str(lemmas.get("status", "")).startswith(("FAILED", "REJECTED")):
+        print("CHECKER-CRASH lemmas/SigmaRules.lean: %s" % lemmas["status"])
+        rc = rc or 3
     conform_runs = sum((r.get("conform") or {}).get("runs", 0) for r in results)
     wall = time.time() - t0
     from contracts.props import CLAIMS
@@ -318,7 +356,9 @@ def check_property(prop, tier, seed, jobs):
             back_end="z3 %s (python API, smt.mbqi=false, timeout %d ms per obligation)" % (_z3v(), run.TIMEOUT_MS),
             samples=samples,
             conformance_replays_on_real_numpy=conform_runs,
-            known_findings_printed=[h.get("what") for h, _, _ in known_hits],
+            known_findings_printed=sorted(set(h.get("what") for h, _, _ in known_hits)),
+            obligations_refuted_by_known_findings=sorted(set(known_refuted)),
+            sigma_lemmas=lemmas,
             undecided=[dict(function=r["contract"], cfg=r["cfg"], **{k: str(v)[:300] for k, v in u.items()}) for r, u in undecided][:50],
         ),
         assumptions=sorted(set(a for c in load_contracts() if prop in c.props for a in c.assumptions())) + ASSUMPTIONS_GLOBAL,
